@@ -45,7 +45,8 @@ CHECKS = {
         '(machine-checked witness C03_application_refuted_F14; further witnesses: 6-state machines whose rule L0+4,R0-2, inferred on even counts, is applied to an odd one) when the faithful model performs the '
         'same application, as VIOLATION otherwise. Rules: every distinct (program, state, signature, rule) is submitted to the Coq-verified symbolic rule checker (C03_cover_sig_apply_sound), whose '
         'certificate proves all its applications real for all counts (about 85% of the rules met); the stored rules (MinSig, edge flags) are compared code vs model through a second hook. '
-        'The application trace itself is part of the model correspondence.',
+        'The application trace itself is part of the model correspondence. KNOWN FINDING F16 (zero pushed onto an empty span not recorded during a rule demonstration; see C02) is attributed by a verified '
+        'replay to the claimed tape plus the missing zeros.',
    note=COMMON_NOTE + 'Theorems closed under the global context. Hook: machine::verif::take_apps (cfg bb_verif).',
    tech='Rocq/Coq conditional theorem + per-application verified replay (Coq-proved checker) + model/implementation correspondence on application traces'),
  'C04': dict(cat='other', sec='DESIGN.md §6 C04, §5 F1/F2',
